@@ -52,6 +52,7 @@ class World:
         self.all_events = []
         self.write_files = write_files
         self.queried = None
+        self.cancel_code = "OK"            # what the scheduler answers to cancel_jobs
 
     def outcome(self):
         k = self.counter
@@ -138,7 +139,8 @@ class ScriptedAdapter(ScriptAdapter):
     def cancel_jobs(self, joblist):
         WORLD.emit(("cancel", tuple(sorted(WORLD.job_owner[j]
                                            for j in joblist))))
-        return CancellationRecord(CancelCode.OK, 0)
+        code = getattr(CancelCode, WORLD.cancel_code)
+        return CancellationRecord(code, 0 if code == CancelCode.OK else 1)
 
 
 TERMINAL = ("FINISHED", "FAILED", "TIMEDOUT", "HWFAILURE", "UNKNOWN",
@@ -303,8 +305,11 @@ def do_poll(g, code, reports):
     return ret, canon_events(WORLD.events)
 
 
-def do_cancel(g):
+def do_cancel(g, code="OK"):
+    """`code`: the scheduler's answer to the cancel request (the study is
+    flagged as cancelled whatever it is)"""
     WORLD.events = []
+    WORLD.cancel_code = code
     try:
         g.cancel_study()
         ret = "ok"
